@@ -1063,6 +1063,42 @@ Definition step_read (st : state) (blob tract off len : Z) (tries : list Z) : li
   | _, _ => [-1]
   end.
 
+(* code 83: ts chunk target nspecs (blob tract off len ver nfrom from... nfail failing...)*
+   Store.PackTracts at ts with these specs when, per tract, the listed sources cannot be reached: a source that cannot
+   be reached is skipped exactly like one that answers with the wrong version or length; a tract none of whose sources
+   delivers makes the whole call fail and leaves no piece.  Answer: error class, then the piece as PackTracts left it. *)
+Fixpoint probe_specs (n : nat) (l : list Z) : list (tkt * Z * Z * Z * list Z) :=
+  match n with
+  | O => []
+  | S n' => match l with
+            | blob :: tract :: off :: len :: ver :: nfrom :: r =>
+                let '(from, r1) := Cluster.Model.take nfrom r in
+                match r1 with
+                | nfail :: r2 =>
+                    let '(failing, r3) := Cluster.Model.take nfail r2 in
+                    (Cluster.Model.tkey blob tract, off, len, ver, filter (fun h => negb (zmem h failing)) from) :: probe_specs n' r3
+                | [] => []
+                end
+            | _ => []
+            end
+  end.
+Definition pack_probe (st : state) (a : list Z) : list Z :=
+  match a with
+  | ts :: chunk :: target :: nspecs :: r =>
+      let '(st1, c) := ts_pack st ts ts chunk target (probe_specs (Z.to_nat nspecs) r) [] in
+      c :: dump_piece st1 ts chunk
+  | _ => [-1]
+  end.
+
+Definition class_probe (st : state) (a : list Z) : list Z :=
+  match a with
+  | [blob] => match Cluster.Model.zget (s_blobs st) blob with
+              | Some b => if all_rs st blob then [-1] else [snd (update_class st 0 (s_term st) blob (b_tgt b))]
+              | None => [-1]
+              end
+  | _ => [-1]
+  end.
+
 Definition begin_event (st : state) : state := set_fin st [] (s_next st).
 
 (* operation ids (client writes, rounds) are positive and never reused while anything of the old owner is around *)
@@ -1188,6 +1224,13 @@ Definition step_fx (fx : fixes) (st0 : state) (ev : list Z) : state * list Z :=
       else if c =? 82 then
         (* compositional harness: the calls of the round still unanswered (stat, pack, encode, bump, alloc, commit) *)
         (st, [Z.of_nat (length (filter (fun e => (0 <? p_owner e) && negb (Cluster.Model.k_kind (p_rpc e) =? K_GCTract)) (s_pool st)))])
+      else if c =? 84 then
+        (* probe: a raw UpdateStorageClass(blob, its target class) in the current term, submitted by the harness only while
+           some tract of the blob has no RS pointer: the command must refuse (answer = its error), nothing changes *)
+        (st, class_probe st a)
+      else if c =? 83 then
+        (* Store-level probe of PackTracts (the state is left alone: the harness removes the scratch piece again) *)
+        (st, pack_probe st a)
       else if c =? 31 then
         match a with
         | [blob] => match Cluster.Model.zget (s_blobs st) blob with
